@@ -95,6 +95,11 @@ type Config struct {
 	// the runnable tasks (current first when curFirst) and returns an index,
 	// or -1 to let the tape decide. Used for guided (schedule-transfer) runs.
 	Pick func(opts []*Task, curFirst bool) int
+	// DaemonsOK: when the root task has returned and every remaining task is
+	// blocked for ever, the run is complete (they are background goroutines of
+	// the code under test, as when a Go program's main returns) instead of a
+	// deadlock.
+	DaemonsOK bool
 	// PathNames names tasks by spawn path ("0", "0.0", "0.1", "0.0.0", ...).
 	PathNames bool
 	// TraceSync records synchronisation events (fork, acquire, release,
@@ -119,15 +124,17 @@ type Sim struct {
 	reqCh   chan *Task
 	wg      sync.WaitGroup
 
-	Seq      int64 // global event sequence number
-	Now      int64 // simulated time, ns
-	hash     uint64
-	log      []string
-	outcome  Outcome
-	detail   string
-	aborted  bool
-	crashNow bool
-	switches int
+	Seq          int64 // global event sequence number
+	Now          int64 // simulated time, ns
+	hash         uint64
+	log          []string
+	outcome      Outcome
+	detail       string
+	aborted      bool
+	crashNow     bool
+	leftover     int
+	abortQuietly bool
+	switches     int
 
 	// Services lets sim packages (simsync, simunix, ...) hang their
 	// scheduler-owned state off the simulation.
@@ -192,6 +199,8 @@ func (s *Sim) Run(root func()) Result {
 	s.running = nil
 	s.aborted = false
 	s.crashNow = false
+	s.abortQuietly = false
+	s.leftover = 0
 	s.outcome = Completed
 	s.detail = ""
 	t := &Task{fn: root, wake: make(chan struct{}), Name: "root"}
@@ -313,7 +322,7 @@ func (s *Sim) loop() {
 		resumeTask(s, t)
 		s.handle(t)
 	}
-	if s.outcome != Completed {
+	if s.outcome != Completed || s.abortQuietly {
 		s.abortAll()
 	}
 }
@@ -411,6 +420,15 @@ func (s *Sim) pick() *Task {
 		if next > 0 {
 			s.Now = next
 			continue
+		}
+		if s.cfg.DaemonsOK && len(s.tasks) > 0 && s.tasks[0].exited {
+			// the root has returned: whatever is still blocked is a background
+			// goroutine of the code under test (a worker waiting on its channel),
+			// exactly what remains when a Go program's main returns
+			s.outcome = Completed
+			s.leftover = live
+			s.abortQuietly = true
+			return nil
 		}
 		s.outcome = Deadlock
 		var w []string
